@@ -13,6 +13,8 @@ CONSTANTS
   ClockPoints <- MCClock
   SetModes = {"on", "off", "auto"}
   SetPads = {"", "nl"}
+  SetZones = {""}
+  EmptyProgs = {}
   SetDays = {18251}
   Xs = {512, 513}
   Rates = {0, 512}
